@@ -106,57 +106,64 @@ def build(cfg):
 
 
 class RouteObserver:
+    """obs = index of the subordinate that received a read strobe in the previous cycle (or -1).
+    CSR bus rule: a subordinate returns read data in the cycle after it was read-strobed and zero
+    otherwise, so only that subordinate is offered non-zero r_data."""
     def __init__(self, cfg, h, comp):
         self.lv = h.meta["leaves"]
         self.dw = cfg["dw"]
         ii, pi = comp.in_index, comp.probe_index
         self.ii, self.pi = ii, pi
-        self.init = 0
+        self.init = -1
         aw = h.meta["aw"]
         n = len(self.lv)
         if self.dw <= 2:
-            vals, wds = range(1, 1 << self.dw), range(1 << self.dw)
+            vals, wds = list(range(1, 1 << self.dw)), range(1 << self.dw)
         else:       # wide bus: walking / pattern tokens
             full = (1 << self.dw) - 1
             wds = sorted({0, full, 0xA5 & full, 0x5A & full} | {1 << i for i in range(self.dw)})
             vals = [v for v in wds if v]
-        letters = []
         order = comp.in_names
-        for addr, r, w, wd in itertools.product(range(1 << aw), (0, 1), (0, 1), wds):
-            for src in [None] + [(k, v) for k in range(n) for v in vals]:
-                d = dict(addr=addr, r_stb=r, w_stb=w, w_data=wd)
-                for k in range(n):
-                    d[f"sub{k}_r_data"] = src[1] if (src is not None and src[0] == k) else 0
-                letters.append(tuple(d[name] for name in order))
-        self._letters = letters
+        self._by_src = {}
+        for src in [-1] + list(range(n)):
+            letters = []
+            for addr, r, w, wd in itertools.product(range(1 << aw), (0, 1), (0, 1), wds):
+                for v in ([0] if src < 0 else [0] + vals):
+                    d = dict(addr=addr, r_stb=r, w_stb=w, w_data=wd)
+                    for k in range(n):
+                        d[f"sub{k}_r_data"] = v if k == src else 0
+                    letters.append(tuple(d[name] for name in order))
+            self._by_src[src] = letters
 
     def letters(self, obs):
-        return self._letters
+        return self._by_src[obs]
 
     def observe(self, obs, letter, outs):
         ii, pi = self.ii, self.pi
         addr, r, w, wd = letter[ii["addr"]], letter[ii["r_stb"]], letter[ii["w_stb"]], letter[ii["w_data"]]
-        exp_rd = 0
+        exp_rd = letter[ii[f"sub{obs}_r_data"]] if obs >= 0 else 0
+        nxt = -1
         for k, lf in enumerate(self.lv):
-            exp_rd |= letter[ii[f"sub{k}_r_data"]]
             sel = lf["start"] <= addr < lf["start"] + (1 << lf["aw"])
             er, ew = (r, w) if sel else (0, 0)
+            if sel and r:
+                nxt = k
             gr, gw = outs[pi[f"sub{k}_r_stb"]], outs[pi[f"sub{k}_w_stb"]]
             if (gr, gw) != (er, ew):
                 return dict(msg=f"subordinate {k} (window {lf['start']}..{lf['stop']}) sees r_stb={gr} w_stb={gw}, expected {er}/{ew} at address {addr}",
-                            signature=dict(kind="oracle", what="strobe_routing")), 0
+                            signature=dict(kind="oracle", what="strobe_routing")), obs
             if sel and (r or w):
                 ga = outs[pi[f"sub{k}_addr"]]
                 if ga != addr - lf["start"]:
                     return dict(msg=f"subordinate {k} receives address {ga}, expected {addr - lf['start']} (bus address {addr})",
-                                signature=dict(kind="oracle", what="sub_addr")), 0
+                                signature=dict(kind="oracle", what="sub_addr")), obs
                 if w and outs[pi[f"sub{k}_w_data"]] != wd:
                     return dict(msg=f"subordinate {k} receives w_data {outs[pi[f'sub{k}_w_data']]}, expected {wd}",
-                                signature=dict(kind="oracle", what="sub_w_data")), 0
+                                signature=dict(kind="oracle", what="sub_w_data")), obs
         if outs[pi["r_data"]] != exp_rd:
-            return dict(msg=f"upstream r_data={outs[pi['r_data']]} expected {exp_rd}",
-                        signature=dict(kind="oracle", what="r_data")), 0
-        return None, 0
+            return dict(msg=f"upstream r_data={outs[pi['r_data']]} expected {exp_rd} (the subordinate read in the previous cycle: {obs})",
+                        signature=dict(kind="oracle", what="r_data")), obs
+        return None, nxt
 
 
 class ReadObs(MuxObserver):
@@ -287,6 +294,7 @@ def main(tier, seed):
 ASSUMPTIONS = [
     "Amaranth 0.5.10 front end, build_netlist and Simulator are the trusted base", "rst held at 0",
     "data width 1-2, root address width 3-5",
-    "subordinates keep r_data at zero while idle (CSR bus rule): read-data letters have at most one non-zero subordinate",
+    "subordinates keep r_data at zero while idle (CSR bus rule): only the subordinate that was read-strobed in the previous "
+    "cycle is offered non-zero read data",
     "addresses inside the alignment padding of a window (beyond the subordinate's own address space) must select nobody",
 ]
